@@ -37,6 +37,7 @@ def check(ctx, tier):
     bcast.width_table(ctx, tk, "C04.d")
     bcast.xor_scatter(ctx, tk, "C04.e")
     bcast.column_guard(ctx, tk, "C04.f")
+    bcast.flat_result(ctx, tk, "C04.f")
     coh = ctx.cached("coherence", lambda: Coherence(tk))
     report(coh, "C04.a", funcs=[f.qual, RA + "_broadcast_rows"])
     from .. import hazards as _hz, scopes as _sc
